@@ -254,3 +254,80 @@ Proof.
 Qed.
 
 End Typed.
+
+(* ---------------------------------------------------------------- indices (the lemmas of LoaderGenProofs.v, repeated
+   here so that these files do not depend on gen/Loader_gen.v) *)
+
+Lemma rt_index_0 {X} (x : X) l : rt_index (x :: l) 0 = Done x.
+Proof.
+  unfold rt_index, rt_pos. cbn [Z.ltb Z.compare length].
+  replace (Z.of_nat (S (length l)) <=? 0)%Z with false by (symmetry; apply Z.leb_gt; lia). reflexivity.
+Qed.
+
+Lemma rt_index_1 {X} (x y : X) l : rt_index (x :: y :: l) 1 = Done y.
+Proof.
+  unfold rt_index, rt_pos. cbn [Z.ltb Z.compare length].
+  replace (Z.of_nat (S (S (length l))) <=? 1)%Z with false by (symmetry; apply Z.leb_gt; lia). reflexivity.
+Qed.
+
+Lemma rt_pos_last n : rt_pos (S n) (-1) = Some n.
+Proof.
+  unfold rt_pos. cbn [Z.ltb Z.compare].
+  replace (-1 + Z.of_nat (S n))%Z with (Z.of_nat n) by lia.
+  replace (Z.of_nat n <? 0)%Z with false by (symmetry; apply Z.ltb_ge; lia).
+  replace (Z.of_nat (S n) <=? Z.of_nat n)%Z with false by (symmetry; apply Z.leb_gt; lia).
+  now rewrite Nat2Z.id.
+Qed.
+
+Lemma rt_index_last {X} (G : list X) x : rt_index (G ++ [x]) (-1) = Done x.
+Proof.
+  unfold rt_index. rewrite app_length, Nat.add_1_r, rt_pos_last.
+  rewrite nth_error_app2 by lia. now rewrite Nat.sub_diag.
+Qed.
+
+Lemma list_last_cases {X} (l : list X) : l = [] \/ exists G x, l = G ++ [x].
+Proof. destruct l as [|a r]; [now left|]. right. destruct (exists_last (l := a :: r)) as (G & x & E); [discriminate|]. now exists G, x. Qed.
+
+(* ---------------------------------------------------------------- small facts used by the equality proofs *)
+
+Lemma if_same {A : Type} (c : bool) (x : A) : (if c then x else x) = x.
+Proof. now destruct c. Qed.
+
+Lemma fold_stop_inl {X M R : Type} (f : X -> M -> M) (l : list X) (m : M) :
+  @fold_stop X M R (fun x m => inl (f x m)) l m = inl (fold_left (fun m x => f x m) l m).
+Proof. revert m. induction l as [|x r IH]; intros m; cbn; [reflexivity | apply IH]. Qed.
+
+Lemma combine_snoc {A B : Type} (a : list A) (b : list B) x y :
+  length a = length b -> combine (a ++ [x]) (b ++ [y]) = combine a b ++ [(x, y)].
+Proof.
+  revert b. induction a as [|a0 a IH]; destruct b as [|b0 b]; cbn; intros H; try discriminate; [reflexivity|].
+  now rewrite IH by (now inversion H).
+Qed.
+
+Lemma getitem_dict_found {T C S : Type} (O : cfg_oracles T C S) (d : list (pyval T C S * pyval T C S)) k v :
+  is_key k = true -> dfind k d = Some v -> dy_getitem O (VDict d) k = XDone v.
+Proof. intros Hk Hf. unfold dy_getitem. now rewrite Hk, Hf. Qed.
+
+Lemma getattr_found {T C S : Type} (a : list (pstr * pyval T C S)) n v :
+  afind n a = Some v -> dy_getattr (VObj a) n = XDone v.
+Proof. intros Hf. unfold dy_getattr. now rewrite Hf. Qed.
+
+Lemma rt_len_3 {X : Type} (a b c : X) r : (rt_len (a :: b :: c :: r) =? 2)%Z = false.
+Proof. apply Z.eqb_neq. unfold rt_len. cbn [length]. lia. Qed.
+
+Lemma getitem_0 {T C S : Type} (O : cfg_oracles T C S) (a : pyval T C S) l : dy_getitem O (VList (a :: l)) (VInt 0) = XDone a.
+Proof. unfold dy_getitem. now rewrite rt_index_0. Qed.
+Lemma getitem_1 {T C S : Type} (O : cfg_oracles T C S) (a b : pyval T C S) l : dy_getitem O (VList (a :: b :: l)) (VInt 1) = XDone b.
+Proof. unfold dy_getitem. now rewrite rt_index_1. Qed.
+
+(* a loop over the lines of a file is the fold of STEP over the model states encoded by ENC, from M0;
+   first goal: the body is STEP on encoded states, second goal: what follows the loop *)
+Ltac lines_loop ENC STEP M0 :=
+  match goal with |- context [rt_for_lines ?all ?rest ?body ?s0 rt_no_else_file ?k] =>
+    let HB := fresh "HB" in
+    assert (HB : forall ln m, body ln (ENC m) = match STEP ln m with inl m' => FCont (ENC m') | inr v => FRet v end);
+    [ cbv beta
+    | rewrite (for_lines_fold ENC STEP body k HB rest all M0 : rt_for_lines all rest body s0 rt_no_else_file k = _);
+      clear HB ]
+  end.
+
